@@ -49,7 +49,7 @@ class Context:
         self.tables: dict[str, Any] = {}
         self.undecided: list[str] = []
         al = getattr(prog, "alignment", None)
-        if al and (al.get("renamed_back") or al.get("inlined")):
+        if al and (al.get("renamed_back") or al.get("inlined") or al.get("locals") or al.get("substituted")):
             self.notes["alignment"] = al
 
     # -- bookkeeping -----------------------------------------------------------
